@@ -1397,6 +1397,9 @@ def num_method(ev, x: Num, name, args, kwargs, fr, node):
         return x.like(x.expr, unit=x.unit, backend="dask")
     if name == "reshape":
         shp = args[0] if len(args) == 1 and isinstance(args[0], (TupleV, ListV)) else TupleV(args)
+        mx = nd_materialize(x)
+        if mx is not None and all(ev.concrete_int(s_) is not None for s_ in shp.items):
+            return nd_method(ev, mx, "reshape", [shp], {}, fr, node)
         return reshape(ev, x, shp, fr, node)
     if name == "swapaxes":
         a, b = ev.concrete_int(args[0]), ev.concrete_int(args[1])
@@ -1732,9 +1735,25 @@ def nd_setitem(ev, x: NdArr, idx, v, fr, node):
         strides.insert(0, acc)
         acc *= s_
     ev.trace.append(("nd-store", x, idx, v, node))
-    for combo in itertools.product(*sel):
+    combos = list(itertools.product(*sel))
+    if isinstance(v, NdArr):
+        # the value is broadcast against the selected block (axes indexed by an integer are dropped)
+        kept = [len(s_) for ax, s_ in enumerate(sel) if not (ax < len(items) and not isinstance(items[ax], SliceV))]
+        vs = (1,) * (len(kept) - v.ndim) + tuple(v.shape)
+        if len(vs) != len(kept) or any(a_ not in (1, b_) for a_, b_ in zip(vs, kept)):
+            from .symeval import Raised
+            raise Raised("ValueError", node, f"could not broadcast input array from shape {v.shape} into shape {tuple(kept)}")
+        vstr, acc = [], 1
+        for s_ in reversed(vs):
+            vstr.insert(0, 0 if s_ == 1 else acc)
+            acc *= s_
+        for kcombo, combo in zip(itertools.product(*[range(k_) for k_ in kept]), combos):
+            off = sum(c * st for c, st in zip(combo, strides))
+            x.items[off] = v.items[sum(c * st for c, st in zip(kcombo, vstr))]
+        return
+    for combo in combos:
         off = sum(c * st for c, st in zip(combo, strides))
-        x.items[off] = v if not isinstance(v, NdArr) else v.items[0]
+        x.items[off] = v
 
 
 def h_moveaxis(ev, args, kwargs, fr, node):
@@ -2282,6 +2301,10 @@ def h_zeros(ev, args, kwargs, fr, node, fill=0):
         n = 1
         for d in dims:
             n *= int(d)
+        if n == 0 and len(dims) == 1:
+            arr = NdArr((0,), [])
+            arr.dtype = dt
+            return arr
         if n == 0:
             return Num(sp.Symbol("empty_array"), kind="array", shape=dims, dtype=dt if isinstance(dt, ExtV) else None, tag="filled")
         if n <= 64:
@@ -2469,6 +2492,22 @@ def h_concatenate(ev, args, kwargs, fr, node):
     items = ev.iterate(args[0], fr, node)
     axis = kwargs.get("axis", args[1] if len(args) > 1 else Num(0))
     ax = ev.concrete_int(axis)
+    # Python sequences among the pieces are arrays too
+    items = [h_array(ev, [i], {}, fr, node) if isinstance(i, (ListV, TupleV)) else i for i in items]
+    if items and all(isinstance(i, NdArr) for i in items):
+        if all(i.ndim == 1 for i in items) and ax in (0, -1):
+            flat = [e for i in items for e in i.items]
+            out = NdArr((len(flat),), flat)
+            dts = [getattr(i, "dtype", None) for i in items if len(i.items)]
+            out.dtype = dts[0] if dts else None
+            for d_ in dts[1:]:
+                out.dtype = promote_dtype(out.dtype, d_)
+            return out
+        ev.unsupported("np.concatenate of explicit arrays of rank > 1", node, fr)
+    if not all(isinstance(i, (Num, NdArr)) for i in items):
+        ev.unsupported(f"np.concatenate of {[type(i).__name__ for i in items]}", node, fr)
+    if any(isinstance(i, NdArr) for i in items):
+        ev.unsupported("np.concatenate mixing explicit and symbolic-length arrays", node, fr)
     shape = None
     if ax is not None and all(isinstance(i, Num) and i.shape is not None for i in items):
         shape = list(items[0].shape)
